@@ -44,6 +44,18 @@ def recycled(kind):
     return out
 
 
+def retried(kind):
+    """the same machine for a handle that is RE-ADDED after it failed (it still carries state ERROR and the last error):
+    two accepting endpoints, every validity pattern and arrival order"""
+    out = []
+    pad = lambda t: ",".join(map(str, list(t) + [0]))
+    for val in itertools.product((0, 1), repeat=2):
+        for rd in itertools.product((0, 1), repeat=2):
+            out.append({"label": "retry_n2_a11_v%s_r%s" % ("".join(map(str, val)), "".join(map(str, rd))),
+                        "defines": ["NSUB=2", "KIND=%d" % kind, "ACCEPT={1,1,0}", "VALID={%s}" % pad(val), "ROUND={%s}" % pad(rd), "RETRY=1"]})
+    return out
+
+
 def machine(name, kind, functions, what):
     return {
         "name": name, "src": "h1_request.c", "env": ["ctx", "list_wrap", "fmt_stub"], "tus": [], "unwind": 6, "timeout": 600, "max_replays": 8,
@@ -53,8 +65,8 @@ def machine(name, kind, functions, what):
         "functions": functions,
         "bound": what + " forwarded to n endpoints; scenario shape concrete per instance and enumerated exhaustively by the driver: which endpoints accept, which replies are valid, the round in which each copy returns "
                  "(rounds x endpoint order realise every arrival order); quick n = 1, 2 (28 shapes), thorough n = 1..3 (371 shapes); external error codes symbolic, error codes three fixed different values",
-        "instances": shapes(1, kind) + shapes(2, kind) + recycled(kind),
-        "thorough": {"instances": shapes(1, kind) + shapes(2, kind) + shapes(3, kind) + recycled(kind), "timeout": 1200},
+        "instances": shapes(1, kind) + shapes(2, kind) + recycled(kind) + retried(kind),
+        "thorough": {"instances": shapes(1, kind) + shapes(2, kind) + shapes(3, kind) + recycled(kind) + retried(kind), "timeout": 1200},
     }
 
 
